@@ -5,8 +5,8 @@
 cd /verif
 pids="$@"; [ -z "$pids" ] && pids=$(ls seeded | sed 's/-.*//' | sort -u)
 run_pid() {
-  pid=$1; wt=/tmp/seed/$pid
-  [ -d $wt ] || git -C /repo worktree add -q --detach $wt HEAD
+  pid=$1; wt=${SEED_WT:-/tmp/seed}/$pid
+  [ -d $wt ] || mkdir -p $(dirname $wt); [ -d $wt ] || git -C /repo worktree add -q --detach $wt HEAD
   for d in seeded/$pid-*; do
     git -C $wt checkout -q --detach $(git -C /repo rev-parse HEAD) 2>/dev/null; git -C $wt checkout -q -- .
     patch=$d/patch.diff; [ -f $d/patch_rebased.diff ] && patch=$d/patch_rebased.diff
